@@ -623,7 +623,8 @@ func (h *Sources) match(match *core.Line, cur *core.Cursor, usePos, fwd, regex b
 
 		cline := string(*match)
 		if cur != nil && cur.Pos() < match.Len() {
-			cline = cline[:cur.Pos()]
+			// (the cursor position counts characters, not bytes)
+			cline = string((*match)[:cur.Pos()])
 		}
 
 		// Matching: either as substring (regex) or since beginning.
